@@ -121,6 +121,36 @@ class Repo:
         for m in self.modules.values():
             for c in m.classes.values():
                 c.bases = [self._resolve_base(m, b) for b in c.node.bases]
+        for m in self.modules.values():
+            for c in m.classes.values():
+                self._expand_partialmethods(m, c)
+
+    def _expand_partialmethods(self, m: Module, c: "ClassInfo"):
+        """NAME = functools.partialmethod(TARGET, *a, **kw) in a class body is a method; it is modelled by the
+        equivalent   def NAME(self, *args, **kwargs): return self.TARGET(*a, *args, **kw, **kwargs)."""
+        for name, value in list(c.assigns.items()):
+            if not (isinstance(value, ast.Call) and self.resolve_expr(m, value.func) == "functools.partialmethod" and value.args
+                    and isinstance(value.args[0], ast.Name)):
+                continue
+            target = value.args[0].id
+            call = ast.Call(func=ast.Attribute(value=ast.Name(id="self", ctx=ast.Load()), attr=target, ctx=ast.Load()),
+                            args=list(value.args[1:]) + [ast.Starred(value=ast.Name(id="args", ctx=ast.Load()), ctx=ast.Load())],
+                            keywords=[k for k in value.keywords] + [ast.keyword(arg=None, value=ast.Name(id="kwargs", ctx=ast.Load()))])
+            fn = ast.FunctionDef(name=name, args=ast.arguments(posonlyargs=[], args=[ast.arg(arg="self")], vararg=ast.arg(arg="args"),
+                                                                kwonlyargs=[], kw_defaults=[], kwarg=ast.arg(arg="kwargs"), defaults=[]),
+                                 body=[ast.Return(value=call)], decorator_list=[], returns=None, type_comment=None)
+            try:
+                fn.type_params = []  # type: ignore[attr-defined]
+            except Exception:
+                pass
+            ast.copy_location(fn, value)
+            for n in ast.walk(fn):
+                if not hasattr(n, "lineno"):
+                    ast.copy_location(n, value)
+            ast.fix_missing_locations(fn)
+            c.methods[name] = fn
+            del c.assigns[name]
+            c.all_defs = [(n, (fn if n == name else d)) for n, d in c.all_defs]
 
     def _is_pkg(self, modname: str) -> bool:
         m = self.modules.get(modname)
